@@ -157,12 +157,15 @@ def external_calls(prog, rep):
             ok = False
             if isinstance(f, ast.Name):
                 r = prog.lookup(fi, f.id)
-                ok = isinstance(r, (FuncInfo, ClassInfo)) or f.id in SAFE_NAMES or f.id in good or f.id in fi.params
+                ok = isinstance(r, (FuncInfo, ClassInfo)) or f.id in SAFE_NAMES or f.id in good or f.id in fi.params or prog.is_registry_value(f, fi)
             elif isinstance(f, ast.Attribute):
                 root = f.value
                 while isinstance(root, ast.Attribute):
                     root = root.value
-                if isinstance(root, ast.Name) and root.id in fi.mod.imports and not (root.id in ("logger",)):
+                imp = fi.mod.imports.get(root.id) if isinstance(root, ast.Name) else None
+                is_module = imp is not None and (imp[1] is None or imp[1][:1].islower() and imp[0] in ("itertools", "re", "codecs", "json", "os", "sys", "math", "functools", "operator", "collections", "datetime", "typing", "iso8601", "logging"))
+                repo_object = imp is not None and imp[1] is not None and imp[0].split(".")[0] in ("aw_query", "aw_core", "aw_transform", "aw_datastore")
+                if imp is not None and not repo_object and not (root.id in ("logger",)):
                     ok = name in SAFE_QUALIFIED or name.split(".")[0] in ("logger", "logging")
                 else:
                     ok = f.attr in SAFE_METHODS
@@ -280,7 +283,7 @@ def guarded_lookups(prog, rep):
     rep.check(any(norm(r.exc.func if isinstance(r.exc, ast.Call) else r.exc) == "QueryInterpretException" for r in rz), "KEY-GUARD", tg.short, "too few arguments", "raise QueryInterpretException", "a missing positional argument is not reported as an interpret error", tg.loc())
     # registry call under try/except TypeError
     fi = prog.func("QFunction.interpret")
-    calls = [c for c in prog.all_calls(fi) if isinstance(c.func, ast.Subscript) and norm(c.func.value) == "functions"]
+    calls = [c for c in prog.all_calls(fi) if prog.is_registry_value(c.func, fi)]
     ok = False
     why = f"{len(calls)} registry call sites"
     if len(calls) == 1:
